@@ -1,4 +1,5 @@
 import DimodModel.Lp
+import DimodModel.LpReader
 import DimodModel.Wire
 open Wire Lp
 
@@ -6,6 +7,8 @@ open Wire Lp
 
     dump <cqm>      → `ok <hex of the LP text>` | `err soft|label|spin`
     load <hex text> → `ok <canonical cqm>` | `err`
+    lpread <hex text> → the C++ reader as coded (`LpCpp.loads`): `ok <canonical cqm>` | `err refused|unmodelled|assertion`
+    dbl <rat>       → `roundDouble`: the nearest binary64 as a rational | `inf` | `-inf`
     valid <label>   → `1` | `0`
     wrap <hex>,<hex>,…  → hex of `_WidthLimitedFile` applied to these writes
     cqm  = vars ; objective ; constraint ; constraint …     (fields separated by `;`)
@@ -83,6 +86,15 @@ def answer (line : String) : String :=
   | ["load", h] => match loads (hexString h.toList) with
     | some m => "ok " ++ showCqm m
     | none => "err"
+  | ["lpread", h] => match LpCpp.loads (hexString h.toList) with
+    | .ok m => "ok " ++ showCqm m
+    | .error .refused => "err refused" | .error .unmodelled => "err unmodelled" | .error .assertion => "err assertion"
+  | ["lpread"] => match LpCpp.loads "" with
+    | .ok m => "ok " ++ showCqm m
+    | .error .refused => "err refused" | .error .unmodelled => "err unmodelled" | .error .assertion => "err assertion"
+  | ["dbl", q] => match parseRat? q with
+    | some q => (match LpCpp.roundDouble q with | .fin r => showRat r | .inf b => if b then "-inf" else "inf")
+    | none => "bad"
   | ["valid", l] => match parseLabel? l with
     | some l => if validLabel l then "1" else "0"
     | none => "bad"
